@@ -9,6 +9,8 @@ servers (a miss) - for the keys whose server failed - and nothing may be raised.
 
 from __future__ import annotations
 
+import itertools
+
 from pymemcache.client.base import Client, PooledClient
 from pymemcache.client.hash import HashClient
 
@@ -240,16 +242,74 @@ def _worker(job, chk):
     chk.count("cases")
 
 
+DOWN_STACKS = ("hash1", "hash1d", "hash2", "hash2p", "pooled", "client")
+DOWN_MODES = ("refused", "timeout", "reset", "unreach")
+DOWN_GAPS = (0, 0.5, 2, 61)  # none / below retry_timeout / above it / above dead_timeout
+
+
+def _down_worker(job, chk):
+    """Every server is down for good (persistent failure mode): whatever the history of earlier reads and
+    pauses - the retry and eviction bookkeeping of HashClient runs through all its stages - every read
+    returns what a miss returns and nothing is raised."""
+    _, stack, mode, si = job
+    shape = SHAPES[si]
+    miss = run_case(None, stack, False, False, shape, preload=False, probe=False)[2][-1]
+    if miss[0] == "exc":
+        chk.count("shapes_not_offered")
+        return
+    cname = cls_of(stack).__name__
+    nreads = 5
+    for gaps in itertools.product(DOWN_GAPS, repeat=nreads - 1):
+        net = stacks.new_net(None, menu=simnet.MENU_CONN)
+        ops.preload(net)
+        obj = stacks.build(stack, net, ignore_exc=True, default_noreply=True, connect_timeout=3, timeout=7)
+        for addr in list(net.servers):
+            net.failing[addr] = mode
+        results = []
+        for i in range(nreads):
+            if i:
+                net.clock.advance(gaps[i - 1])
+            net.call = i + 1
+            try:
+                results.append(("ret", shape.call(obj)))
+            except Exception as e:  # noqa
+                results.append(("exc", e))
+        chk.add()
+        chk.outcome(("down", stack, mode, shape.label, gaps))
+        for i, r in enumerate(results):
+            if not same(r, miss):
+                what = "raises" if r[0] == "exc" else "failure-result-differs-from-miss"
+                extra = f"|{type(r[1]).__name__}" if r[0] == "exc" else ""
+                chk.violation(f"{what}|{cname}|{shape.label}{extra}|servers-down",
+                              f"{cname}(ignore_exc=True) [{stack}], every server failing ({mode}) throughout: read {i + 1} of "
+                              f"{shape.label} (pauses before the reads: {list(gaps[:i])}) gave {show(r)}; a miss returns {show(miss)}",
+                              {"down": True, "stack": stack, "mode": mode, "shape": shape.label, "gaps": list(gaps)})
+                break
+    chk.count("cases")
+
+
+def _any_worker(job, chk):
+    if job[0] == "down":
+        return _down_worker(job, chk)
+    return _worker(job, chk)
+
+
 def run(chk):
     chk.rule = RULE
     chk.assumptions = ["a hard deviation (refused/timeout/reset/EOF/error line/garbage/truncation/foreign key) makes the exchange it hits fail",
                        "for a multi-server HashClient the keys of the servers that did not fail are still expected"]
     chk.info["deviation_bound_completed"] = 2 if chk.tier == "quick" else 3
-    runner.parallel(chk, _worker, _jobs(chk.tier))
+    down = [("down", stack, mode, si) for stack in DOWN_STACKS for mode in DOWN_MODES for si in range(len(SHAPES))
+            if chk.tier != "quick" or (mode in ("refused", "timeout") and si in (0, 3, 5, 8, 9, 10))]
+    runner.parallel(chk, _any_worker, _jobs(chk.tier) + down)
 
 
 def replay(detail):
     shape = next(s for s in SHAPES if s.label == detail["shape"])
+    if detail.get("down"):
+        tmp = runner.Check(PROPERTY, LEVEL, "quick", 0)
+        _down_worker(("down", detail["stack"], detail["mode"], SHAPES.index(shape)), tmp)
+        return [v["what"] for v in tmp.violations.values()]
     stack, serde, warm = detail["stack"], detail["serde"], detail["warm"]
     miss, hit, owner = baselines(stack, serde, warm, shape)
     ch, (net, obj, rec, prec) = explore.replay(lambda c: run_case(c, stack, serde, warm, shape), detail["choices"])
